@@ -7,8 +7,18 @@ import numpy as np
 
 from common import Cvec, R, fl
 
-LEAN_MODULES = ["PyomaVerif.Props.C18", "PyomaVerif.Mutants.C18"]
+from common import hc_pre_build as pre_build  # noqa: E402,F401  (C09C18 builds on the generated run() programs)
+
+LEAN_MODULES = ["PyomaVerif.Props.C18", "PyomaVerif.Mutants.C18", "PyomaVerif.Props.C09C18"]
 THEOREMS = [
+    # composition C09 o C18: the kept poles satisfy the criteria for the library's own MPC/MPD definitions
+    "PV.C09C18.kept_iff_of_check",
+    "PV.C09C18.C09_kept_mpc",
+    "PV.C09C18.C09_kept_mpd",
+    "PV.C09C18.C09_kept_damp",
+    "PV.C09C18.C09_kept_converse",
+    "PV.C09C18.C09_kept_iff_pLSCF",
+    "PV.C09C18.enabled_iff",
     "PV.C18.C18_mac_bounds",
     "PV.C18.C18_mac_shape",
     "PV.C18.C18_mac_vec",
